@@ -85,6 +85,9 @@ class MemAccessor:
         return self.d[p]
 
     def store_file(self, p, buf, mime_type=None, overwrite=False):
+        from neuroglancer_scripts.accessor import DataAccessError
+        if p in self.d and not overwrite:
+            raise DataAccessError("file exists")
         self.d[p] = bytes(buf)
 
     def file_exists(self, p):
@@ -214,11 +217,14 @@ def run(R):
         if kind == "mem":
             acc = MemAccessor()
             reopen = lambda: acc   # noqa: E731
+            reopen_same = reopen
         else:
             opts = {"flat": "flat" in kind, "gzip": "gz" in kind}
             acc = accessor.get_accessor_for_url(d, opts)
             other = {"flat": rng.random() < 0.5, "gzip": rng.random() < 0.5}
             reopen = lambda: accessor.get_accessor_for_url(d, other)   # noqa: E731
+            # same layout as the writer: a chunk rewritten in another layout would leave the old file behind
+            reopen_same = lambda: accessor.get_accessor_for_url(d, opts)   # noqa: E731
         pio = precomputed_io.get_IO_for_new_dataset(info, acc)
         arrays = []          # token -> array (expected read-back)
         given_arrays = {}    # token -> array actually passed to write_chunk
@@ -302,6 +308,41 @@ def run(R):
                                     {"info": info, "coords": list(c)}, {"impl": impl})
                 if impl_c != mod:
                     R.disagree("read_chunk vs model", {"info": info, "coords": list(c)}, impl_c, mod)
+        # second initialisation of the same dataset with a description that decodes differently: either it
+        # is refused, or what is written through the returned handle must read back through a fresh handle
+        if rng.random() < 0.4:
+            info2 = json.loads(json.dumps(info))
+            swap = {"uint32": "float32", "float32": "uint32", "uint8": "uint16", "uint16": "uint8",
+                    "uint64": "uint32"}
+            info2["data_type"] = swap[dt]
+            for s2 in info2["scales"]:
+                s2["encoding"] = "raw"
+                s2.pop("compressed_segmentation_block_size", None)
+            ow = rng.random() < 0.25
+            got2 = outcome_of(lambda: precomputed_io.get_IO_for_new_dataset(info2, reopen_same(), overwrite_info=ow))
+            R.count("reinit:" + ("overwrite" if ow else "no-overwrite") + ":" + got2[0])
+            if got2[0] == "ok":
+                if ow:
+                    last.clear()
+                pio_b = got2[1]
+                sc2 = info2["scales"][0]
+                c2 = tuple(t for s_, k_ in zip(sc2["size"], sc2["chunk_sizes"][0]) for t in (0, min(k_, s_)))
+                a2 = np.arange(nch * (c2[5] - c2[4]) * (c2[3] - c2[2]) * (c2[1] - c2[0]), dtype="float64")
+                a2 = (a2 * 0.5 + 0.5).astype(info2["data_type"]).reshape(nch, c2[5] - c2[4], c2[3] - c2[2], c2[1] - c2[0])
+                w2 = outcome_of(lambda: pio_b.write_chunk(a2, sc2["key"], c2))
+                if w2[0] == "ok":
+                    last.pop((sc2["key"], c2), None)
+                    r2 = outcome_of(lambda: precomputed_io.get_IO_for_existing_dataset(reopen()).read_chunk(sc2["key"], c2))
+                    rcase = {"first_info": info, "second_info": info2, "overwrite_info": ow, "coords": list(c2)}
+                    if r2[0] != "ok":
+                        R.violation("chunk written through a re-initialised handle cannot be read by a fresh handle",
+                                    rcase, {"impl": r2})
+                    elif (r2[1].shape != a2.shape or r2[1].dtype.newbyteorder("=") != a2.dtype
+                          or r2[1].tobytes() != a2.tobytes()):
+                        R.violation("chunk written through a re-initialised handle reads back differently through a "
+                                    "fresh handle (the handle and the stored info disagree)", rcase,
+                                    {"written": [str(a2.dtype), list(a2.shape)],
+                                     "read": [str(r2[1].dtype), list(r2[1].shape)]})
         # fresh handle (another accessor configuration for file accessors)
         pio2 = precomputed_io.get_IO_for_existing_dataset(reopen())
         for (key, c), tok in last.items():
